@@ -18,19 +18,92 @@ use std::time::Duration;
 pub enum Q {
     Typed(BackgroundQueue<TestE>),
     Boxed(BoxEntrySink),
+    /// `build::<BoxEntry>`: the typed queue of boxed entries, used directly
+    TypedBox(BackgroundQueue<metrique_writer_core::BoxEntry>),
+    /// a `BoxEntrySink` boxed once more (what `attach` does with the output of `build_boxed`),
+    /// driven through the blanket `impl EntrySink<E> for T: AnyEntrySink`
+    ReBoxed(BoxEntrySink),
 }
 impl Q {
     pub fn append(&self, e: TestE) {
         match self {
             Q::Typed(q) => q.append(e),
             Q::Boxed(q) => q.append_any(e),
+            Q::TypedBox(q) => q.append(metrique_writer_core::BoxEntry::new(e)),
+            Q::ReBoxed(q) => EntrySink::<TestE>::append(q, e),
         }
     }
     pub fn flush_async(&self) -> FlushWait {
         match self {
             Q::Typed(q) => EntrySink::<TestE>::flush_async(q),
             Q::Boxed(q) => AnyEntrySink::flush_async(q),
+            Q::TypedBox(q) => EntrySink::<metrique_writer_core::BoxEntry>::flush_async(q),
+            Q::ReBoxed(q) => EntrySink::<TestE>::flush_async(q),
         }
+    }
+}
+
+/// the ways a user can come by a background queue (beyond typed / `build_boxed`): kind 0 = as
+/// `boxed` says; 1 = `build::<BoxEntry>`; 2 = boxed twice + blanket EntrySink impl; 3 =
+/// `BackgroundQueue::new` (all builder defaults: capacity 64 Ki, flush every second); 4 = with a
+/// local metrics recorder and a metric name; 5 = builder without thread name, with shutdown_timeout
+pub fn build_queue_kind(
+    kind: u8,
+    capacity: usize,
+    boxed: bool,
+    flush_interval: Duration,
+    stream: BqStream,
+) -> (Q, BackgroundQueueJoinHandle) {
+    match kind % 6 {
+        1 => {
+            let (q, h) = BackgroundQueueBuilder::new()
+                .capacity(capacity)
+                .flush_interval(flush_interval)
+                .thread_name("vq")
+                .build::<metrique_writer_core::BoxEntry>(stream);
+            (Q::TypedBox(q), h)
+        }
+        2 => {
+            let (q, h) = BackgroundQueueBuilder::new()
+                .capacity(capacity)
+                .flush_interval(flush_interval)
+                .thread_name("vq")
+                .build_boxed(stream);
+            (Q::ReBoxed(BoxEntrySink::new(q)), h)
+        }
+        3 if capacity <= 60_000 => {
+            let (q, h) = BackgroundQueue::<TestE>::new(stream);
+            (Q::Typed(q), h)
+        }
+        4 => {
+            let rec = Arc::new(metrics_util_020::debugging::DebuggingRecorder::new());
+            let b = BackgroundQueueBuilder::new()
+                .capacity(capacity)
+                .flush_interval(flush_interval)
+                .metric_name("vq")
+                .metrics_recorder_local::<dyn metrics_024::Recorder, _>(rec);
+            if boxed {
+                let (q, h) = b.build_boxed(stream);
+                (Q::Boxed(q), h)
+            } else {
+                let (q, h) = b.build::<TestE>(stream);
+                (Q::Typed(q), h)
+            }
+        }
+        5 => {
+            let b = BackgroundQueueBuilder::new()
+                .shutdown_timeout(Duration::from_secs(25))
+                .flush_interval(flush_interval)
+                .capacity(capacity);
+            if boxed {
+                let (q, h) = b.build_boxed(stream);
+                (Q::Boxed(q), h)
+            } else {
+                let (q, h) = b.build::<TestE>(stream);
+                (Q::Typed(q), h)
+            }
+        }
+        _ => build_queue(capacity, boxed, flush_interval, stream),
     }
 }
 
@@ -103,6 +176,9 @@ pub struct Case {
     /// queue capacity == number of entries appended (it can become exactly full, never overflow)
     #[serde(default)]
     pub exact_capacity: bool,
+    /// how the queue is built and addressed (see `build_queue_kind`); 0 = typed / build_boxed
+    #[serde(default)]
+    pub qkind: u8,
 }
 
 pub fn flush_interval(us: u32) -> Duration {
@@ -133,7 +209,7 @@ pub fn check(case: &Case) -> CaseResult {
     stream.report_results = case.report_results.clone();
     // capacity >= total appends: no overflow by construction
     let capacity = if case.exact_capacity { total.max(1) } else { total.max(1) + 1 };
-    let (q, handle) = build_queue(capacity, case.boxed, flush_interval(case.flush_us), stream);
+    let (q, handle) = build_queue_kind(case.qkind, capacity, case.boxed, flush_interval(case.flush_us), stream);
     let flush_counter = std::sync::atomic::AtomicU32::new(0);
     let reports_before = REPORTS_SEEN.load(std::sync::atomic::Ordering::Relaxed);
     let res: Result<Vec<(u32, FlushWait)>, Fail> = std::thread::scope(|s| {
@@ -328,6 +404,14 @@ pub fn check(case: &Case) -> CaseResult {
     } else {
         classes.push("typed-queue");
     }
+    classes.push(match case.qkind % 6 {
+        1 => "queue-of-box-entry",
+        2 => "reboxed-sink-through-blanket-entrysink",
+        3 => "background-queue-new-defaults",
+        4 => "queue-with-metrics-recorder",
+        5 => "builder-default-thread-name-shutdown-timeout",
+        _ => "plain-builder",
+    });
     if case.gated {
         classes.push("gated-writer");
     }
@@ -476,11 +560,12 @@ pub fn arb_case(max_producers: usize, max_ops: usize) -> impl Strategy<Value = C
         (
             prop::collection::vec(prop::bool::weighted(0.7), 0..6),
             prop::bool::weighted(0.4),
-            prop::collection::vec(prop_oneof![2 => Just(SRes::Ok), 1 => Just(SRes::Io)], 0..3),
+            prop::collection::vec(prop_oneof![3 => Just(SRes::Ok), 2 => Just(SRes::Io), 1 => Just(SRes::Validation)], 0..3),
             prop::bool::weighted(0.3),
+            prop_oneof![5 => Just(0u8), 5 => 1u8..6],
         ),
     )
-        .prop_map(|(boxed, flush_us, producers, results, gate, jitter, gated, backlog_at_shutdown, end_by_forget, (flush_results, cycle_scripts, report_results, exact_capacity))| Case {
+        .prop_map(|(boxed, flush_us, producers, results, gate, jitter, gated, backlog_at_shutdown, end_by_forget, (flush_results, cycle_scripts, report_results, exact_capacity, qkind))| Case {
             boxed,
             flush_us,
             producers,
@@ -494,6 +579,7 @@ pub fn arb_case(max_producers: usize, max_ops: usize) -> impl Strategy<Value = C
             cycle_scripts,
             report_results,
             exact_capacity,
+            qkind,
         })
 }
 
@@ -686,7 +772,7 @@ fn subscriber_children(ctx: &mut Ctx) {
     }
 }
 
-pub const RULE: &str = "1-6 real producer threads x 0-25 ops (append, bursts, flush requests fired or awaited, yields/spins/sleeps, continuing through a clone) on a typed or boxed queue with capacity > total appends; the library's own writer thread; per-call stream results Ok/Validation/Io for entries (optionally repeating for the whole run), Ok/Io for the in-band report, Ok/error for stream.flush(); capacity = entries appended + 1 or exactly the entries appended; writer progress owned by a generated fuel script (grants, pauses, wait-until-parked-at-the-gate) so that park/unpark races and drained-then-refilled queues occur; flush interval 1us / 1ms / 50ms; in a quarter of the cases the gate stays shut until shut_down() has begun, so that the shutdown-time drain meets a backlog with Io / Validation results inside it; no tracing subscriber (in-band report path live). a quarter of the cases end through forget() + drop of the last handle (the writer's own 'no appenders left' exit) instead of shut_down(). Oracle over the global event log after the end: every appended (producer, seq) reaches the stream exactly once, per-producer seq increasing, nothing else except the in-band report (only after a validation error, process-wide <= 1/s), stream flushed after the last entry and dropped. Non-trivial = >=2 producers with >=2 entries each and (a non-Ok result or a flush request)";
+pub const RULE: &str = "1-6 real producer threads x 0-25 ops (append, bursts, flush requests fired or awaited, yields/spins/sleeps, continuing through a clone) on a typed or boxed queue (also: build::<BoxEntry>, a BoxEntrySink boxed again and driven through the blanket EntrySink impl, BackgroundQueue::new with all defaults, a queue with a local metrics recorder and metric name, a builder with shutdown_timeout and no thread name) with capacity > total appends; the library's own writer thread; per-call stream results Ok/Validation/Io for entries (optionally repeating for the whole run), Ok/Io/Validation for the in-band report, Ok/error for stream.flush(); capacity = entries appended + 1 or exactly the entries appended; writer progress owned by a generated fuel script (grants, pauses, wait-until-parked-at-the-gate) so that park/unpark races and drained-then-refilled queues occur; flush interval 1us / 1ms / 50ms; in a quarter of the cases the gate stays shut until shut_down() has begun, so that the shutdown-time drain meets a backlog with Io / Validation results inside it; no tracing subscriber (in-band report path live). a quarter of the cases end through forget() + drop of the last handle (the writer's own 'no appenders left' exit) instead of shut_down(). Oracle over the global event log after the end: every appended (producer, seq) reaches the stream exactly once, per-producer seq increasing, nothing else except the in-band report (only after a validation error, process-wide <= 1/s), stream flushed after the last entry and dropped. Non-trivial = >=2 producers with >=2 entries each and (a non-Ok result or a flush request)";
 
 pub fn run(ctx: &mut Ctx) {
     ctx.assume("thread interleavings are sampled (perturbed by generated yields/spins/sleeps in producers and in the stream callbacks and by the fuel script), not enumerated");
@@ -697,7 +783,7 @@ pub fn run(ctx: &mut Ctx) {
         SubCfg::new("c01-delivery", RULE, if q { 1_500 } else { 40_000 })
             .threads(ctx.tier.pick(4, 8))
             .shrink_iters(200)
-            .mandatory(&["non-ok-result", "flush-request", "boxed-queue", "typed-queue", "gated-writer", "backlog-at-shutdown", "io-result-inside-shutdown-backlog", "backlog-when-last-handle-dropped", "capacity-equals-entries-appended", "stream-flush-errors"]),
+            .mandatory(&["non-ok-result", "flush-request", "boxed-queue", "typed-queue", "gated-writer", "backlog-at-shutdown", "io-result-inside-shutdown-backlog", "backlog-when-last-handle-dropped", "capacity-equals-entries-appended", "stream-flush-errors", "queue-of-box-entry", "reboxed-sink-through-blanket-entrysink", "background-queue-new-defaults", "queue-with-metrics-recorder"]),
         || arb_case(6, 25),
         check,
     );
